@@ -697,7 +697,57 @@ def r8(F, rep):
         raise AnalysisBroken("C09-R8: only %d parsing stages found in parse_config" % len(stages))
 
 
+def r9(F, rep, rid="C09-R9"):
+    rep.rule(rid, "a wrong separator fails the tuple: in every operator>> of the value types each comparison of the separator "
+                  "character with a literal ('(', ',', ')') decides a setstate(failbit) -- it is part of a condition that guards "
+                  "one, or it sits in a loop condition and a setstate() after the loop is guarded by a test of a counter that "
+                  "the loop increments (an early exit leaves the counter short); a reader that only tests the stream state "
+                  "afterwards accepts `(1 2 3)` or `(1; 2; 3)` and keeps whatever it had read")
+    from .rules_c03 import all_guards
+    n = 0
+    for f in sorted(F.funcs.values(), key=lambda g: (g.q, g.m)):
+        if "/src/" not in f.file or f.body is None or f.name != "operator>>":
+            continue
+        cmps = []
+        for x in f.walk():
+            if x["k"] == "BinaryOperator" and x.get("op") in ("==", "!="):
+                ks = [X.strip(k) for k in X.kids(x)]
+                if any(k["k"] == "CharacterLiteral" for k in ks) and any(k["k"] == "DeclRefExpr" for k in ks):
+                    cmps.append(x)
+        if not cmps:
+            continue
+        sets = [c for c in X.calls(f) if X.callee_name(c) == "setstate"]
+        gconds = [(s0, [cn for cn, pol in all_guards(f, s0)]) for s0 in sets]
+        seen = set()
+        for cmp in cmps:
+            lit = [X.strip(k).get("v") for k in X.kids(cmp) if X.strip(k)["k"] == "CharacterLiteral"][0]
+            who = "operator>>(%s)" % (f.typestr(f.params[1]["t"]).replace("colvarmodule::", "") if len(f.params) > 1 else f.q)
+            key = "%s|%s" % (who, chr(lit) if isinstance(lit, int) else lit)
+            ok = any(any(y is cmp for y in f.walk(cn)) for s0, cns in gconds for cn in cns)
+            how = "guards a setstate(failbit)"
+            if not ok:
+                loops = [a for a in f.ancestors(cmp) if a["k"] in ("WhileStmt", "ForStmt", "DoStmt")]
+                if loops:
+                    L = loops[0]
+                    inc = {X.strip(X.kids(u)[0]).get("d") for u in f.walk(L) if u["k"] == "UnaryOperator" and u.get("op") in ("++", "post++") and X.strip(X.kids(u)[0])["k"] == "DeclRefExpr"}
+                    for s0, cns in gconds:
+                        if not (f.cfg.can_reach(cmp, s0) or any(f.cfg.can_reach(u, s0) for u in f.walk(L) if u["k"] == "UnaryOperator")):
+                            continue
+                        if any(y["k"] == "DeclRefExpr" and y.get("d") in inc for cn in cns for y in f.walk(cn)):
+                            ok = True
+                            how = "ends the loop early, and the counter test after the loop sets failbit"
+            if key in seen and ok:
+                continue
+            seen.add(key)
+            n += 1
+            rep.add(rid, key, f.loc(cmp), "%s: the test of the separator against %r %s" % (who, chr(lit) if isinstance(lit, int) else lit, how if ok else "does NOT decide any setstate(failbit)"), ok,
+                    detail="a tuple with a wrong or missing separator is accepted with the values read so far", func=f.q)
+    if n < 6:
+        raise AnalysisBroken("%s: only %d separator tests found in the value readers" % (rid, n))
+
+
 def run(F, rep, tier):
+    r9(F, rep)
     r8(F, rep)
     R1(F, rep).run()
     r2(F, rep)
